@@ -981,7 +981,21 @@ func (ch *Chain) CancelWithRcode(rcode int, do bool) {
 		}
 	}
 	m := new(dns.Msg)
-	m.Extra = req.Extra
+	// Echo the request's OPT — the EDNS negotiation must stay visible —
+	// but none of what the client put in it except its cookie, which the
+	// BADCOOKIE reply answers. Everything else (client subnet, padding,
+	// unknown codes, any other additional record) is the client's own
+	// data and is not reflected: some callers run ahead of the edns
+	// handler, whose writer would otherwise have stripped it.
+	if opt := req.IsEdns0(); opt != nil {
+		clean := &dns.OPT{Hdr: opt.Hdr}
+		for _, o := range opt.Option {
+			if o.Option() == dns.EDNS0COOKIE {
+				clean.Option = append(clean.Option, o)
+			}
+		}
+		m.Extra = []dns.RR{clean}
+	}
 	m.SetRcode(req, rcode)
 	m.RecursionAvailable = true
 	m.RecursionDesired = true
